@@ -141,28 +141,42 @@ Theorem C15_options_eq_hash : forall (h : pyval -> Z), (forall x y, py_eq x y = 
 Proof. intros h Hh a b ha hb Ha Hb He H1 H2. apply Hh. exact (opt_eq_hash_l a b ha hb Ha Hb He H1 H2). Qed.
 Print Assumptions C15_options_eq_hash.
 
-(* Feature: equality additionally compares the context, the hash ignores it -- coherent in the required direction.
-   feat_eq = Some true excludes the comparisons that raise (Domain vs None). *)
-Theorem C15_feature_eq_hash : forall (h : pyval -> Z), (forall x y, py_eq x y = true -> h x = h y) ->
-  forall a b ha hb, wf_feat a -> wf_feat b ->
+(* Feature: equality additionally compares the context of the feature's own options, the hash ignores it -- coherent in
+   the required direction.  feat_eq = Some true excludes the comparisons that raise (Domain vs None).  The statement
+   covers child_options[in_features] holding Feature objects (a frozenset of any size in any iteration order, or a single
+   Feature) when it is a GROUP entry of the child options.
+   FULL STATEMENT (no guard kf_child_ctx_inf):
+     forall a b ha hb, wf_feat a -> wf_feat b -> feat_eq a b = Some true -> feat_hkey a = Some ha -> feat_hkey b = Some hb
+                       -> py_eq ha hb = true
+   REFUTED on the faithful model (known finding C15-feature-hash-child-context-infeatures): when the Feature-valued
+   in_features is a CONTEXT entry of the child options, __eq__ (group only) ignores it but __hash__ copies it into the
+   group.  PROVED outside that domain. *)
+Theorem C15_feature_eq_hash_partial : forall (h : pyval -> Z), (forall x y, py_eq x y = true -> h x = h y) ->
+  forall a b ha hb, wf_feat a -> wf_feat b -> kf_child_ctx_inf a = false -> kf_child_ctx_inf b = false ->
   feat_eq a b = Some true -> feat_hkey a = Some ha -> feat_hkey b = Some hb -> h ha = h hb.
-Proof. intros h Hh a b ha hb Ha Hb He H1 H2. apply Hh. exact (feat_eq_hash_l a b ha hb Ha Hb He H1 H2). Qed.
-Print Assumptions C15_feature_eq_hash.
+Proof. intros h Hh a b ha hb Ha Hb Ka Kb He H1 H2. apply Hh. exact (feat_eq_hash_l a b ha hb Ha Hb Ka Kb He H1 H2). Qed.
+Print Assumptions C15_feature_eq_hash_partial.
 
-(* FULL STATEMENT for features whose child_options[in_features] is a frozenset of Feature objects (outside the value
-   fragment; modelled by infeatures_hash_name with the iteration order as parameter):
-     forall l l', Permutation l l' -> infeatures_hash_name l = infeatures_hash_name l'
-   i.e. the hash must not depend on the iteration order of that frozenset.  REFUTED on the faithful model (known
-   finding C15-feature-hash-infeatures-order); PROVED for frozensets with at most one Feature. *)
-Theorem C15_feature_hash_infeatures_partial : forall l l', (List.length l <= 1)%nat -> Permutation l l' ->
-  infeatures_hash_name l = infeatures_hash_name l'.
-Proof. exact infeatures_single_l. Qed.
-Print Assumptions C15_feature_hash_infeatures_partial.
+Theorem C15_feature_eq_hash_refuted :
+  feat_eq (ctx_child "p") (ctx_child "q") = Some true /\
+  kf_child_ctx_inf (ctx_child "p") = true /\
+  exists ha hb, feat_hkey (ctx_child "p") = Some ha /\ feat_hkey (ctx_child "q") = Some hb /\ py_eq ha hb = false.
+Proof. exact feat_hash_child_context_refuted_l. Qed.
+Print Assumptions C15_feature_eq_hash_refuted.
 
-Theorem C15_feature_hash_infeatures_refuted : exists l l', Permutation l l' /\
-  py_eq (infeatures_hash_name l) (infeatures_hash_name l') = false.
-Proof. exact infeatures_order_refuted_l. Qed.
-Print Assumptions C15_feature_hash_infeatures_refuted.
+(* the value Feature.__hash__ substitutes for a frozenset of Features does not depend on the iteration order of that
+   frozenset, whatever its size (code as repaired in /repo 17adca0; the former known finding
+   C15-feature-hash-infeatures-order) ... *)
+Theorem C15_feature_hash_infeatures_order_independent : forall l l', Permutation l l' ->
+  inf_rewrite (InfSet l) = inf_rewrite (InfSet l').
+Proof. exact infeatures_order_independent_l. Qed.
+Print Assumptions C15_feature_hash_infeatures_order_independent.
+
+(* ... and equal in_features values (equal frozensets of Features written in any order, equal single Features) are
+   replaced by the same value *)
+Theorem C15_feature_hash_infeatures_eq : forall x y, inf_wf x -> inf_wf y -> inf_eq x y = true -> inf_rewrite x = inf_rewrite y.
+Proof. exact inf_rewrite_eq. Qed.
+Print Assumptions C15_feature_hash_infeatures_eq.
 
 Theorem C15_link_eq_hash : forall a b, plink_eq a b = true -> py_eq (plink_hkey a) (plink_hkey b) = true.
 Proof. exact plink_eq_hash_l. Qed.
@@ -173,6 +187,7 @@ Proof. exact idx_eq_hash_l. Qed.
 Print Assumptions C15_index_eq_hash.
 
 Theorem C15_filter_eq_hash : forall a b ha hb, wf_feat (sf_feat a) -> wf_feat (sf_feat b) ->
+  kf_child_ctx_inf (sf_feat a) = false -> kf_child_ctx_inf (sf_feat b) = false ->
   sf_eq a b = Some true -> sf_hkey a = Some ha -> sf_hkey b = Some hb -> py_eq ha hb = true.
 Proof. exact sf_eq_hash_l. Qed.
 Print Assumptions C15_filter_eq_hash.
@@ -250,7 +265,7 @@ Proof. exact share_iff_agree_refuted_l. Qed.
 Print Assumptions C15_share_iff_agree_refuted.
 
 (* from items back to features: it_kb is the index of the hash class.  Hash classes are classes of the CANONICAL FORM
-   of the group options (+ frameworks).  Equal options are always in one class ... *)
+   of the group options (+ frameworks), up to the atoms CPython hashes alike (hnorm: "" ~ 0 ~ False, -1 ~ -2).  Equal options are always in one class ... *)
 Theorem C15_equal_options_same_class : forall a b,
   wfv (VDict (g_group a)) -> wfv (VDict (g_group b)) -> nofs (VDict (g_group a)) -> nofs (VDict (g_group b)) ->
   hash_key (VDict (g_group a)) <> None -> hash_key (VDict (g_group b)) <> None ->
@@ -271,6 +286,12 @@ Print Assumptions C15_base_class_iff.
    The direction -> is REFUTED on the faithful model (known finding C15-grouping-conflates-list-tuple): group options
    {"c": [1, 2]} and {"c": (1, 2)} are unequal, have the same canonical form, and the two features are computed in one
    step.  The direction <- is C15_equal_options_same_class. *)
+(* the same with a genuine collision of Python's hash: hash("") = hash(0) (also hash(-1) = hash(-2)) *)
+Theorem C15_hash_collision_refuted :
+  opts_agree hc_c hc_d = false /\ base_eqb hc_c hc_d = true /\ group_features [hc_c; hc_d] = [[0; 1]]%nat.
+Proof. exact hash_collision_refuted_l. Qed.
+Print Assumptions C15_hash_collision_refuted.
+
 Theorem C15_hash_class_refuted :
   opts_agree hc_a hc_b = false /\ base_eqb hc_a hc_b = true /\ kf_hash_conflation [hc_a; hc_b] = true /\
   group_features [hc_a; hc_b] = [[0; 1]]%nat.
